@@ -5,6 +5,8 @@ import (
 	"go/constant"
 	"go/token"
 	"go/types"
+	"os"
+	"regexp"
 	"sort"
 	"strings"
 
@@ -40,11 +42,12 @@ type intrinsic func(w *World, g *G, args []Value, fin func(Value))
 
 // syncOp is a (potentially blocking) synchronisation step of a goroutine.
 type syncOp struct {
-	ready func() bool
-	exec  func()
-	desc  string
-	free  bool    // a voluntary yield: switching away costs no preemption
-	chans []*ChanObj
+	ready   func() bool
+	exec    func()
+	desc    string
+	free    bool // a voluntary yield: switching away costs no preemption
+	quiesce bool
+	chans   []*ChanObj
 }
 
 type deferred struct {
@@ -68,9 +71,10 @@ type Frame struct {
 }
 
 type panicInfo struct {
-	val  Value
-	msg  string
-	site string
+	val   Value
+	msg   string
+	site  string
+	stack []string
 }
 
 // G is a goroutine.
@@ -99,6 +103,7 @@ type Violation struct {
 	Decisions []Decision
 	Trace     []string
 	Sig       string
+	Stack     []string
 	Light     bool
 	Harness   string
 	Kinds     map[string]string
@@ -113,6 +118,8 @@ const (
 	EndAbort
 	EndCrash
 )
+
+var traceCalls = os.Getenv("SSASYM_TRACE") != ""
 
 type abortPath struct{ reason string }
 type endPath struct{}
@@ -150,27 +157,27 @@ type World struct {
 	lastNow  *Term
 	nowCount int
 
-	symCount  map[string]int
-	inputs    map[string]*Term
-	inputKind map[string]string
-	atEnd     []Value
-	reached   map[string]bool
-	tags      []string
-	trace     []string
-	watchLog  []watchEvent
-	fnSeen    map[string]bool
-	violations []*Violation
-	asserted  map[string]int
-	end       PathEnd
-	endMsg    string
-	ended     bool
-	initDone  map[*ssa.Package]bool
-	inAtEnd   bool
-	stats     *Stats
-	poolReuse bool
-	mapOrder  bool
+	symCount    map[string]int
+	inputs      map[string]*Term
+	inputKind   map[string]string
+	atEnd       []Value
+	reached     map[string]bool
+	tags        []string
+	trace       []string
+	watchLog    []watchEvent
+	fnSeen      map[string]bool
+	violations  []*Violation
+	asserted    map[string]int
+	end         PathEnd
+	endMsg      string
+	ended       bool
+	initDone    map[*ssa.Package]bool
+	inAtEnd     bool
+	stats       *Stats
+	poolReuse   bool
+	mapOrder    bool
 	timerBudget int
-	sigSeen   map[string]int
+	sigSeen     map[string]int
 }
 
 type watchEvent struct {
@@ -180,13 +187,22 @@ type watchEvent struct {
 }
 
 func (w *World) tracef(format string, a ...interface{}) {
-	if len(w.trace) < 400 {
+	if len(w.trace) < 400 || traceCalls {
 		w.trace = append(w.trace, fmt.Sprintf(format, a...))
 	}
 }
 
 func (w *World) abort(format string, a ...interface{}) {
-	panic(abortPath{fmt.Sprintf(format, a...)})
+	where := ""
+	if w.cur != nil && len(w.cur.frames) > 0 {
+		fr := w.cur.frames[len(w.cur.frames)-1]
+		where = " [in " + fr.fn.String()
+		if fr.blk != nil && fr.pc < len(fr.blk.Instrs) {
+			where += " @ " + w.in.Fset.Position(fr.blk.Instrs[fr.pc].Pos()).String()
+		}
+		where += "]"
+	}
+	panic(abortPath{fmt.Sprintf(format, a...) + where})
 }
 
 // ---- goroutines and frames ----
@@ -254,6 +270,9 @@ func (w *World) callFn(g *G, fn *ssa.Function, args []Value, fv []Value, onRet f
 		}
 		w.watchLog = append(w.watchLog, watchEvent{name, caller, rc})
 	}
+	if traceCalls && !strings.Contains(name, "rpc.v") {
+		w.tracef("g%d %*scall %s", g.id, len(g.frames), "", name)
+	}
 	if h, ok := w.in.intrinsics[name]; ok {
 		h(w, g, args, onRet)
 		return
@@ -306,7 +325,11 @@ func (w *World) goPanic(g *G, msg string, val Value) {
 	for i := len(g.frames) - 1; i >= 0 && len(stack) < 8; i-- {
 		stack = append(stack, g.frames[i].fn.String())
 	}
-	g.panic = &panicInfo{val: val, msg: msg, site: site + " <- " + strings.Join(stack, " <- ")}
+	full := []string{}
+	for i := len(g.frames) - 1; i >= 0; i-- {
+		full = append(full, g.frames[i].fn.String())
+	}
+	g.panic = &panicInfo{val: val, msg: msg, site: site + " <- " + strings.Join(stack, " <- "), stack: full}
 	w.tracef("g%d PANIC %s at %s", g.id, msg, site)
 	if len(g.frames) > 0 {
 		g.frames[len(g.frames)-1].unwinding = true
@@ -384,11 +407,10 @@ type recoverCtx struct {
 	fr *Frame
 }
 
-
 func (w *World) crash(g *G) {
 	p := g.panic
 	g.done = true
-	v := &Violation{Kind: "panic", Label: "panic", Msg: p.msg, Site: p.site}
+	v := &Violation{Kind: "panic", Label: "panic", Msg: p.msg, Site: p.site, Stack: p.stack}
 	w.addViolation(v)
 	w.end = EndCrash
 	w.endMsg = p.msg
@@ -406,7 +428,7 @@ func (v *Violation) Signature() string {
 	}
 	s := v.Kind + "|" + v.Label
 	if v.Kind == "panic" {
-		s += "|" + v.Msg + "|" + v.Site
+		s += "|" + normMsg(v.Msg) + "|" + strings.Join(culpritStack(v.Stack), " <- ")
 	}
 	if len(v.Sites) > 0 {
 		s += "|sites=" + strings.Join(v.Sites, ",")
@@ -415,6 +437,26 @@ func (v *Violation) Signature() string {
 		s += "|" + strings.Join(tags, ",")
 	}
 	return s
+}
+
+var digitsRe = regexp.MustCompile(`[0-9]+|symbolic`)
+
+func normMsg(m string) string { return digitsRe.ReplaceAllString(m, "N") }
+
+// culpritStack keeps the frames from the panic site up to and including the first function of the
+// code under test (package rpc, not a harness function), without positions.
+func culpritStack(stack []string) []string {
+	var out []string
+	for _, f := range stack {
+		if strings.Contains(f, "rpc.zz") || strings.Contains(f, "rpc.v") {
+			break
+		}
+		out = append(out, strings.ReplaceAll(f, "github.com/hslam/", ""))
+		if strings.Contains(f, "github.com/hslam/rpc") {
+			break
+		}
+	}
+	return out
 }
 
 func (w *World) addViolation(v *Violation) {
